@@ -90,13 +90,20 @@ def build(d):
     ini = {"bool": {key: d.choice(TRUE_WORDS if cfg.get(key) else FALSE_WORDS) for key in ("commit", "tag", "push")},
            "quote": {key: d.choice(["", '"', "'"]) for key in ("current_version", "version_pattern", "commit_message", "tag_message",
                                                                 "tag_scope", "pre_commit_hook", "post_commit_hook")},
-           "spaces": d.choice([" = ", "=", " : ", " =  "])}
+           "spaces": d.choice([" = ", "=", " : ", " =  "]),
+           # INI only: the first pattern of an entry on the key line itself (README.md = version {version})
+           "keyline": d.chance(1, 4)}
+    # another tool's section whose name starts like ours and which has a current_version of its own (bump2version)
+    cfg["lookalike"] = d.chance(1, 5)
     return {"cfg": cfg, "ini": ini}
 
 
 def render_ini(cfg, ini, section):
     q = ini["quote"]
-    lines = ["[metadata]", "name = demo", "", "[%s]" % section]
+    lines = ["[metadata]", "name = demo", ""]
+    if cfg.get("lookalike"):
+        lines += ["[bumpversion]", "current_version = %s" % cfg.get("current_version", "0.0.1"), "commit = False", "", "[bumpversion:file:setup.py]", ""]
+    lines.append("[%s]" % section)
     for key in ("current_version", "version_pattern", "commit_message", "tag_message", "tag_scope", "pre_commit_hook", "post_commit_hook"):
         if key in cfg:
             sep = " = " if key == "current_version" else ini["spaces"]
@@ -106,7 +113,11 @@ def render_ini(cfg, ini, section):
             lines.append("%s = %s" % (key, ini["bool"][key]))
     lines += ["", "[%s:file_patterns]" % section]
     for path, pats in cfg["files"]:
-        lines.append("%s =" % path)
+        if ini.get("keyline") and pats and pats[0].strip() == pats[0]:
+            lines.append("%s = %s" % (path, pats[0]))
+            pats = pats[1:]
+        else:
+            lines.append("%s =" % path)
         for p in pats:
             lines.append("    " + p)
     if cfg.get("config_glob"):
@@ -115,7 +126,10 @@ def render_ini(cfg, ini, section):
 
 
 def render_toml(cfg, table):
-    lines = ["[other]", "name = 'demo'", "", "[%s]" % table]
+    lines = ["[other]", "name = 'demo'", ""]
+    if cfg.get("lookalike"):
+        lines += ["[tool.bumpversion]", 'current_version = "%s"' % cfg.get("current_version", "0.0.1"), "commit = false", ""]
+    lines.append("[%s]" % table)
     for key in ("current_version", "version_pattern", "commit_message", "tag_message", "tag_scope", "pre_commit_hook", "post_commit_hook"):
         if key in cfg:
             if key == "current_version":
@@ -229,7 +243,13 @@ def check(case):
             if not own:
                 return viol("no-entry-for-own-config-file", {"format": names[i]}, dict(detail, format=names[i]), nt=nt)
             with open(os.path.join(root, fmt[0]), encoding="utf-8") as f:
-                cv_lines = [ln for ln in f.read().splitlines() if ln.startswith("current_version")]
+                # the current_version line of OUR section (another tool's section may have one as well)
+                cv_lines, inside = [], False
+                for ln in f.read().splitlines():
+                    if ln.startswith("["):
+                        inside = ln.strip() == "[%s]" % fmt[2]
+                    elif inside and ln.startswith("current_version"):
+                        cv_lines.append(ln)
             if not any(p.regexp.search(ln) for p in own for ln in cv_lines):
                 return viol("own-entry-does-not-match-current_version-line", {"format_kind": fmt[1]},
                             dict(detail, format=names[i], line=cv_lines, patterns=[p.raw_pattern for p in own]), nt=nt)
